@@ -1,7 +1,7 @@
 from lib.core import Ctx, Job
 
 H = "harness/C13_instantiate.py"
-KINDS = ["TTT", "TNT", "NTN", "NNT", "TNN", "TDN", "TDD", "TTD"]
+KINDS = ["TTT", "TNT", "NTN", "NNT", "TNN", "TDN", "TDD", "TTD", "ABE", "BNA", "EAB"]
 
 
 def run(ctx: Ctx) -> int:
@@ -14,7 +14,7 @@ def run(ctx: Ctx) -> int:
         jobs.append(Job(H, "h_monomorphize", timeout=t, name=f"h_monomorphize[kinds={k}]", env={"VERIF_C13_KINDS": k, "VERIF_C13_SHARD": "0/1"}))
     ctx.functions_encoded = ["tys/ty.py: FunctionType.instantiate_partial / instantiate / unquantified, substitute, bound_vars; tys/subst.py: Instantiator, Substituter",
                              "tys/param.py: TypeParam / ConstParam with_idx, to_bound, to_existential, instantiate_bounds", "compiler/core.py: require_monomorphization, partially_monomorphize_args, compile_variable_idx"]
-    ctx.bounds = {"signatures": "3 parameters; kind vectors " + ", ".join(KINDS) + " (T type, N nat const, D const whose type is parameter 0); every parameter occurs in one input (8 shape vectors covering each of 3 shapes at each position) and in the output",
+    ctx.bounds = {"signatures": "3 parameters; kind vectors " + ", ".join(KINDS) + " (T / A / B / E type parameters with bounds linear / copy-only / drop-only / copy+drop, N nat const, D const whose type is parameter 0); every parameter occurs in one input (8 shape vectors covering each of 3 shapes at each position) and in the output",
                   "instantiations": "all 8 masks of first-stage instantiation, 2 arguments per parameter (incl. nat/float for the type a dependent const takes its type from)"}
     ctx.outside_claim = ["run-time behaviour and HUGR of monomorphised functions (back end)", "generic structs' field instantiation (exercised under C14 and C31)", "more than 3 parameters; higher-rank function types",
                          "check_call's inference of the instantiation (C12 decides unify)"]
